@@ -21,6 +21,27 @@ structure Auth where
   key : Bytes
 deriving DecidableEq, Repr
 
+/-- the mutable part of `TurnAuthState`: account, current realm / nonce, cached long-term key -/
+structure AuthSt where
+  username : Bytes
+  password : Bytes
+  realm : Bytes
+  nonce : Bytes
+  key : Bytes
+deriving DecidableEq, Repr
+
+/-- the state a successful `allocate` stores (`TurnAuthState::with_key` with the key of the challenge's realm) -/
+def AuthSt.afterAllocate (md5 : Bytes → Bytes) (username password realm nonce : Bytes) : AuthSt :=
+  ⟨username, password, realm, nonce, longTermKey md5 username realm password⟩
+
+/-- `TurnAuthState::update_nonce` after a 401 / 438 challenge: realm and nonce are replaced and the key is
+re-derived from the NEW realm -/
+def AuthSt.updateNonce (md5 : Bytes → Bytes) (s : AuthSt) (realm nonce : Bytes) : AuthSt :=
+  { s with realm := realm, nonce := nonce, key := longTermKey md5 s.username realm s.password }
+
+/-- what the request builders read -/
+def AuthSt.auth (s : AuthSt) : Auth := ⟨s.username, s.realm, s.nonce, s.key⟩
+
 def authAttrs (a : Auth) : List Attr := [.username a.username, .realm a.realm, .nonce a.nonce]
 
 /-- `allocate`: first attempt without credentials, retry with USERNAME/REALM/NONCE + long-term key -/
